@@ -230,11 +230,46 @@ def ok_assign_blocks(body, variant='Ok'):
     directly, or to a temporary that is only moved on into it (the shape a spliced helper / closure leaves)."""
     out = []
     carriers = return_carriers(body)
+    if carriers == {0}:
+        for bi, blk in enumerate(body.blocks):
+            for st in blk['stmts']:
+                if st['dst']['l'] == 0 and not st['dst']['proj'] and st['rv']['k'] == 'agg' \
+                   and st['rv'].get('ak') == 'adt' and st['rv'].get('vname') == variant:
+                    out.append(bi)
+        return out
+    # a value made in a temporary counts when it can reach the return without the chain being overwritten on the way
+    # (the `Ok(())` a spliced closure yields per element is replaced by the loop's own result before anything returns)
+    cfg = flow_of(body).cfg
+    makers = set()
     for bi, blk in enumerate(body.blocks):
+        for st in blk['stmts']:
+            if st['dst']['l'] in carriers and not st['dst']['proj']:
+                rv = st['rv']
+                is_move = rv['k'] == 'use' and rv['ops'][0]['k'] != 'const' and not rv['ops'][0]['p']['proj'] and rv['ops'][0]['p']['l'] in carriers
+                if not is_move:
+                    makers.add(bi)
+        t = blk['term']
+        if t['k'] == 'call' and isinstance(t.get('dst'), dict) and t['dst']['l'] in carriers and not t['dst']['proj']:
+            makers.add(bi)
+    exits = set(cfg.exits())
+    for bi, blk in enumerate(body.blocks):
+        if bi not in cfg.reachable():
+            continue
         for st in blk['stmts']:
             if st['dst']['l'] in carriers and not st['dst']['proj'] and st['rv']['k'] == 'agg' \
                and st['rv'].get('ak') == 'adt' and st['rv'].get('vname') == variant:
-                out.append(bi)
+                if st['dst']['l'] == 0:
+                    out.append(bi)
+                    continue
+                succs = [t_ for t_, _ in cfg.succ[bi]]
+                r = set()
+                for s_ in succs:
+                    if s_ not in makers:
+                        r |= cfg.reach(s_, cut_blocks=makers - {bi})
+                    if s_ in exits:
+                        r.add(s_)
+                if (r & exits) or bi in exits:
+                    out.append(bi)
     return out
 
 
